@@ -114,6 +114,45 @@ def probe_point(ctx, kind, fr_name, shape, off):
     return R.affine(base, (s, e1), (r, w))
 
 
+def battery(ctx, o, kind):
+    """queries against fixed concrete probes (a point and a line in general position): [(name, status, value)].  Run once before
+    the move (whatever they cache must not survive it) and compared with the fresh object afterwards."""
+    x0 = (F(2), F(-1), F(3, 2))
+    out = []
+    if kind == 'Plane':           # (for the bounded 1-D kinds the relative positions of a symbolic object and the line multiply the paths)
+        L0 = Line(pt(ctx, x0), vec(ctx, (F(1), F(2), F(-1))))
+        out.append(('intersection with a fixed line',) + call(lambda: G.intersection(L0, o)))
+    if kind in ('Point', 'Line', 'Plane'):
+        out.append(('distance to a fixed point',) + call(lambda: G.distance(pt(ctx, x0), o)))
+    if kind == 'Plane':
+        out.append(('general_form()',) + call(lambda: tuple(o.general_form())))
+        out.append(('point_normal()',) + call(lambda: tuple(o.point_normal())))
+    return out
+
+
+def battery_same(r1, r2):
+    (_, s1, v1), (_, s2, v2) = r1, r2
+    if s1 != s2:
+        return False
+    if s1 == 'raise' or (v1 is None and v2 is None):
+        return True
+    if v1 is None or v2 is None:
+        return False
+    if isinstance(v1, tuple):
+        if len(v1) != len(v2):
+            return False
+        cs = []
+        for a, b in zip(v1, v2):
+            if isinstance(a, Vector):
+                cs.append(R.vnear(V3(a), V3(b), T7))
+            else:
+                cs.append(near(a, b, T7))
+        return And(*cs)
+    if isinstance(v1, (Point, Line, Plane, Segment, HalfLine, ConvexPolygon, ConvexPolyhedron)):
+        return type(v1) is type(v2) and same(v1, v2, deep=False)
+    return near(v1, v2, T7)
+
+
 def measures(o):
     out = []
     for name in ('length', 'area', 'volume'):
@@ -146,6 +185,7 @@ def fam_move(ctx, kind, fr_name, shape, start, probe):
     if kind == 'ConvexPolygon':
         call(lambda: list(obj.segments()))
     call(lambda: hash(obj))
+    battery(ctx, obj, kind)
     # ---- one move by v
     st, ret = call(lambda: obj.move(vec(ctx, v)))
     if st == 'raise':
@@ -163,6 +203,9 @@ def fam_move(ctx, kind, fr_name, shape, start, probe):
         st2, m2 = call(g)
         ctx.require(st1 == 'ok' and st2 == 'ok' and near(m1, m2, F(1, 10 ** 8)), sig + ': %s changed by move' % name)
     # ---- queries on receiver / return value agree with the fresh object
+    for who, o in (('receiver', obj), ('return value', ret)):
+        for r1, r2 in zip(battery(ctx, o, kind), battery(ctx, fresh, kind)):
+            ctx.require(battery_same(r1, r2), sig + ': %s on the %s differs from the fresh object' % (r1[0], who))
     if probe:
         x = probe_point(ctx, kind, fr_name, shape, R.vadd(u, v))
         for who, o in (('receiver', obj), ('return value', ret)):
